@@ -49,7 +49,7 @@ def hooks_alive() -> bool:
 KIND = {"rhs": "rhs", "monitor_values": "monitor", "missing_values": "missing", "scheme": "scheme"}
 
 
-def emit_event_to_traces(ev, model_id, monitor_index=None, zero_slope=None):
+def emit_event_to_traces(ev, model_id, monitor_index=None, zero_slope=None, full_order=None):
     """One Emit event -> list of TraceEmit records (one per function in the emitted text)."""
     gen = ev["generator"]
     backend = "c" if gen.startswith("C") else ("jax" if gen.startswith("Jax") else "python")
@@ -82,6 +82,7 @@ def emit_event_to_traces(ev, model_id, monitor_index=None, zero_slope=None):
             "stiff": list((ev.get("kwargs") or {}).get("stiff_states") or []),
             "zero_slope": sorted(zero_slope or []),
             "lin": {f"d{s}_dt": f"d{s}_dt_linearized" for s in sidx},
+            "full_order": list(full_order or []),
         })
     return out
 
@@ -179,9 +180,12 @@ def record_model(text: str, model_id: str, backends=("python", "jax", "c"), sche
                     if sc == "hybrid_rush_larsen":
                         kw["stiff_states"] = stiff if stiff is not None else [s.name for s in ode.states[::2]]
                     cg.scheme(get_scheme(sc), **kw)
+            # the sort of the complete graph recorded in this process: the longest assignments-only order
+            orders = [e["order"] for e in rec.events if e["ev"] == "SortOrder" and e.get("assignments_only")]
+            full_order = max(orders, key=len) if orders else []
             for ev in rec.events:
                 if ev["ev"] == "Emit":
-                    traces.extend(emit_event_to_traces(ev, model_id, mon, zero_slope))
+                    traces.extend(emit_event_to_traces(ev, model_id, mon, zero_slope, full_order))
                 elif ev["ev"] in ("SortAdd", "SortOrder"):
                     sorts.append(ev)
                 elif ev["ev"] == "SchemeDecide":
